@@ -1,7 +1,7 @@
 """Validation of recorded DataCollection traces with TLC against Trace_Collection.tla (E2 for C06)."""
 import re
 
-from . import tlc
+from . import tlc, tracecheck
 from .hubtrace import tla, _s
 
 MAX_EVENTS = 300
@@ -52,27 +52,8 @@ def gen_module(part):
 
 def validate(wd, traces, batch=150, timeout=1800):
     kept = prepare(traces)
-    accepted, rejected, states = 0, [], 0
-    for lo in range(0, len(kept), batch):
-        part = kept[lo:lo + batch]
-        while part:
-            wd.write('Trace_Collection_Gen.tla', gen_module(part))
-            res = tlc.run_tlc(wd, 'MC_Trace_Collection.tla', 'Trace_Collection.cfg', workers=1, timeout=timeout,
-                              java_opts=['-Dtlc2.tool.queue.IStateQueue=StateDeque'])
-            m = re.search(r'<<"FURTHEST", (\d+), (\d+)>>', res.out)
-            if not m:
-                raise tlc.TLCError('Trace_Collection failed:\n' + res.out[-2500:])
-            done, far = int(m.group(1)), int(m.group(2))
-            states += res.distinct
-            accepted += done
-            if done == len(part):
-                break
-            tix, eix = divmod(far, 100000)
-            if tix != done + 1:
-                raise tlc.TLCError('Trace_Collection: inconsistent registers %r %r' % (done, far))
-            rejected.append((part[done], eix))
-            part = part[done + 1:]
-    return accepted, rejected, states, len(kept)
+    a, r, st = tracecheck.validate(wd, kept, 'Trace_Collection_Gen.tla', gen_module, 'MC_Trace_Collection.tla', 'Trace_Collection.cfg', batch, timeout)
+    return a, r, st, len(kept)
 
 
 def corruptions(trace):
